@@ -1204,6 +1204,12 @@ static void run_multi8(Json& js, vh::Rng& rng, int lmmax, bool audio, int shard,
                 nh = (int)rng.range(2, 5);   // very short filters: shorter than the rate change
             }
             auto h = sym_taps(rng, nh, &Ssum);
+            if (rep == 1 && !huge) {   // the same shape with negative polarity: the prototype is normalised by its (signed) DC gain
+                for (auto& v : h) {
+                    v = -v;
+                }
+                Ssum = -Ssum;
+            }
             const int kind = (L == 1 && M == 1) ? rep % 3 : (L == 1) ? 0 : (M == 1) ? 1 : 2;
             for (int wrap = 0; wrap < 2; ++wrap) {   // the class itself and the FIRResampler wrapper (unreduced ratio)
                 const int mul = wrap ? (int)rng.range(1, 3) : 1;
